@@ -61,10 +61,13 @@ REPS = [
     ("f53", "(2^53)", cI(2 ** 53)), ("f53", "(2.0^53)", cF(2.0 ** 53)),
     ("w63", "9223372036854775807", cI(2 ** 63 - 1)), ("f63", "(2^63)", cI(2 ** 63)), ("f63", "(2.0^63)", cF(2.0 ** 63)),
     ("wide", "9007199254740993", cI(2 ** 53 + 1)),      # the machine-word spelling of 2^53+1 (`2^53+1` is held in big representation)
+    # NaNs with the other sign bit (0.0/0.0 has it set on x86, its negation and float("nan") do not): one key class whatever the bits
+    ("nan", "(-(0.0/0.0))", "NAN"), ("vnan", "V(1, -(0.0/0.0))", ["v", [cI(1), NAN]]), ("lnan", "[-(0.0/0.0)]", ["l", [NAN]]),
+    ("dnan", "{1: -(0.0/0.0)}", ["d", [[cI(1), NAN]]]),
 ]
-QUICK_REPS = [0, 1, 2, 5, 6, 10, 11, 13, 14, 17, 30, 19, 22, 23, 26, 27, 31, 32, 33, 34, 35, 36, 37, 41, 42, 44, 45]       # 1, 1.0, 2/2, 1/2, 0.5, 2^64, 2.0^64, [1], [1.0], "1", V(1, NaN), V(1.0, NaN)
+QUICK_REPS = [0, 1, 2, 5, 6, 10, 11, 13, 14, 17, 30, 19, 22, 23, 26, 27, 31, 32, 33, 34, 35, 36, 37, 41, 42, 44, 45, 12, 46, 47]       # 1, 1.0, 2/2, 1/2, 0.5, 2^64, 2.0^64, [1], [1.0], "1", V(1, NaN), V(1.0, NaN)
 # depth-3 search: 21 representatives ([NaN], {1: NaN} and the two spellings of 1/3 stay in the grid family, which uses every representative)
-MID_REPS = [0, 1, 2, 3, 4, 5, 6, 7, 9, 10, 11, 12, 13, 14, 15, 16, 17, 30, 19, 22, 23, 26, 27, 31, 32, 33, 34, 35, 36, 37, 38, 39, 40, 41, 42, 43, 44, 45]
+MID_REPS = [0, 1, 2, 3, 4, 5, 6, 7, 9, 10, 11, 12, 13, 14, 15, 16, 17, 30, 19, 22, 23, 26, 27, 31, 32, 33, 34, 35, 36, 37, 38, 39, 40, 41, 42, 43, 44, 45, 46, 47, 48, 49]
 
 OPS = ["set", "inc", "rem", "add", "sub", "merge", "inter", "minus", "plus", "ins"]
 RAISE = "raise"
